@@ -34,6 +34,9 @@ pub struct WState {
     pub fail_at: Option<usize>,
     /// accept at most this many bytes per poll_write
     pub max_per_write: Option<usize>,
+    /// the peer stops reading: once `total` has reached this many bytes every poll_write (and poll_flush /
+    /// poll_shutdown) stays Pending for ever (a full pipe that nobody drains; no error, no wake-up)
+    pub stall_at: Option<usize>,
     pub shutdown: bool,
 }
 
@@ -58,6 +61,9 @@ impl WHandle {
     }
     pub fn set_fail_at(&self, off: Option<usize>) {
         self.0.lock().unwrap().fail_at = off;
+    }
+    pub fn set_stall_at(&self, off: Option<usize>) {
+        self.0.lock().unwrap().stall_at = off;
     }
     pub fn set_max_per_write(&self, k: Option<usize>) {
         self.0.lock().unwrap().max_per_write = k;
@@ -105,6 +111,12 @@ impl AsyncWrite for RecWriter {
         if let Some(k) = st.max_per_write {
             n = n.min(k.max(1));
         }
+        if let Some(off) = st.stall_at {
+            if st.total >= off {
+                return Poll::Pending;
+            }
+            n = n.min(off - st.total);
+        }
         if let Some(off) = st.fail_at {
             if st.total >= off {
                 st.log.push(WEv::Failed);
@@ -140,6 +152,11 @@ impl AsyncWrite for RecWriter {
 
     fn poll_shutdown(self: Pin<&mut Self>, _cx: &mut Context<'_>) -> Poll<std::io::Result<()>> {
         let mut st = self.st.lock().unwrap();
+        if let Some(off) = st.stall_at {
+            if st.total >= off {
+                return Poll::Pending;
+            }
+        }
         st.shutdown = true;
         st.log.push(WEv::Shutdown);
         if let Some(f) = &self.forward {
